@@ -41,6 +41,8 @@ const (
 	c17MsgSetProtocolVersion        = 47
 	c17MsgGetSupportedVersionResp   = 56
 	c17MsgSetProtocolVersionResp    = 57
+	c17MsgROAccessReport            = 61
+	c17MsgKeepAlive                 = 62
 	c17MsgReaderEventNotification   = 63
 	c17MsgErrorMessage              = 100
 
@@ -167,6 +169,10 @@ type c17Host struct {
 //   correct-errver   as correct, but answer GET_SUPPORTED_VERSION with ERROR_MESSAGE/M_UnsupportedVersion (a 1.0.1 reader)
 //   config-error     answer GET_READER_CONFIG with a non-success status and no identification
 //   correct-nosens   as correct, but GeneralDeviceCapabilities carries no ReceiveSensitivityTableEntry
+//   script:<spec>    a host given as a SCRIPT of what it sends when (the same text is given to the model, see
+//                    c17ParseScript / oracle/c17/main.ml): an answer (after a delay, positive or negative) or none
+//                    for the first message and for every request of the exchange, unsolicited traffic at listed
+//                    times and/or periodically for ever, hanging up at some moment or never
 func c17NewHost(addr, mode string, id c17Identity) (*c17Host, error) {
 	var ln net.Listener
 	var err error
@@ -279,6 +285,15 @@ func (h *c17Host) setScript(mode string, id c17Identity) {
 }
 
 func (h *c17Host) serve(c net.Conn, hmode string, hid c17Identity) {
+	if strings.HasPrefix(hmode, "script:") {
+		sc, err := c17ParseScript(strings.TrimPrefix(hmode, "script:"))
+		if err != nil {
+			c.Close()
+			return
+		}
+		h.serveScript(c, sc, hid)
+		return
+	}
 	hello := c17Frame(1, c17MsgReaderEventNotification, 1,
 		c17TLV(c17ParReaderEventNotificationData,
 			c17TLV(c17ParUTCTimestamp, c17U64(1600000000000000)),
@@ -337,7 +352,8 @@ func (h *c17Host) serve(c net.Conn, hmode string, hid c17Identity) {
 		case c17MsgGetSupportedVersion:
 			switch hmode {
 			case "correct-v11":
-				c.Write(c17Frame(ver, c17MsgGetSupportedVersionResp, id, append([]byte{1, 2}, c17StatusOK()...)))
+				// the client reads the version numbers from the top three bits of each byte: current 1.0.1, max 1.1
+				c.Write(c17Frame(ver, c17MsgGetSupportedVersionResp, id, append([]byte{1 << 5, 2 << 5}, c17StatusOK()...)))
 			case "correct-errver":
 				c.Write(c17Frame(1, c17MsgErrorMessage, id, c17StatusCode(110))) // M_UnsupportedVersion
 			default:
@@ -382,6 +398,325 @@ func (h *c17Host) serve(c net.Conn, hmode string, hid c17Identity) {
 		default:
 			// anything else: ERROR_MESSAGE M_UnsupportedMessage
 			c.Write(c17Frame(ver, c17MsgErrorMessage, id, c17StatusCode(109)))
+		}
+	}
+}
+
+// ---------------------------------------------------------------------------------------------
+// hosts given as scripts
+//
+//   d=<r|n|ms>  dial: refused / never answered / accepted (on loopback only "accepted at once" can be played;
+//               the check generates d=0 and uses mode "refuse" for refused dials)
+//   h= v= sv= c= k= x=   what the host does about: the first message, GET_SUPPORTED_VERSION,
+//               SET_PROTOCOL_VERSION (sv=n: the host claims LLRP 1.0.1, none is sent), GET_READER_CONFIG,
+//               GET_READER_CAPABILITIES, CLOSE_CONNECTION:  <ms>+ a positive answer that many ms after the request
+//               (h: after accept), <ms>- a negative one (error status; h: a refused ConnectionAttemptEvent),
+//               - no answer at all
+//   id=<0|1>    a positive GET_READER_CONFIG answer carries the Identification
+//   xo=<0|1>    a negative answer to CLOSE_CONNECTION is an ERROR_MESSAGE (1) / a CLOSE_CONNECTION_RESPONSE with
+//               an error status (0)
+//   fin=<0|1>   after a positive CLOSE_CONNECTION_RESPONSE the host closes the TCP connection
+//   hg=<ms|->   the host closes the TCP connection that long after accept
+//   chat=<ms_ms_..|->  unsolicited messages at these times after accept;  p=<ms|->  and every p ms for ever
+//               (both only once the first message has been sent: before it ANY message is the first message)
+//   tr=<letters of h v s c k x | ->  harness only: at these stages, where the script gives NO answer, the host does
+//               not stay silent but TRICKLES an answer that never completes: the header of the positive answer
+//               claiming 64 KiB more than will ever come, then one byte every 100 ms (only for scripts without
+//               unsolicited traffic: whatever follows an incomplete message on the stream is its payload)
+//   ck=<ka|ev|mix>  harness only: what the unsolicited messages are (KEEPALIVE / READER_EVENT_NOTIFICATION without
+//               a connection event / in turn KEEPALIVE, READER_EVENT_NOTIFICATION, RO_ACCESS_REPORT)
+// ---------------------------------------------------------------------------------------------
+
+type c17Answer struct {
+	has   bool
+	delay time.Duration
+	ok    bool
+}
+
+type c17Script struct {
+	hello, version, config, caps, closeA c17Answer
+	setver                               *c17Answer
+	ident, closeOther, fin               bool
+	hangup                               time.Duration // < 0: never
+	chat                                 []time.Duration
+	period                               time.Duration // 0: none
+	chatKind                             string
+	trickle                              string
+}
+
+func c17ParseAnswer(s string) (c17Answer, error) {
+	if s == "-" {
+		return c17Answer{}, nil
+	}
+	if len(s) < 2 || (s[len(s)-1] != '+' && s[len(s)-1] != '-') {
+		return c17Answer{}, fmt.Errorf("bad answer %q", s)
+	}
+	ms, err := strconv.Atoi(s[:len(s)-1])
+	if err != nil {
+		return c17Answer{}, err
+	}
+	return c17Answer{has: true, delay: time.Duration(ms) * time.Millisecond, ok: s[len(s)-1] == '+'}, nil
+}
+
+func c17ParseScript(spec string) (*c17Script, error) {
+	kv := map[string]string{}
+	for _, f := range strings.Split(spec, ":") {
+		if i := strings.Index(f, "="); i > 0 {
+			kv[f[:i]] = f[i+1:]
+		}
+	}
+	sc := &c17Script{hangup: -1, chatKind: "ka"}
+	var err error
+	for _, a := range []struct {
+		k string
+		p *c17Answer
+	}{{"h", &sc.hello}, {"v", &sc.version}, {"c", &sc.config}, {"k", &sc.caps}, {"x", &sc.closeA}} {
+		v, ok := kv[a.k]
+		if !ok {
+			return nil, fmt.Errorf("script: missing %s", a.k)
+		}
+		if *a.p, err = c17ParseAnswer(v); err != nil {
+			return nil, err
+		}
+	}
+	if v := kv["sv"]; v != "n" {
+		a, err := c17ParseAnswer(v)
+		if err != nil {
+			return nil, err
+		}
+		sc.setver = &a
+	}
+	sc.ident, sc.closeOther, sc.fin = kv["id"] == "1", kv["xo"] == "1", kv["fin"] == "1"
+	if v := kv["hg"]; v != "-" && v != "" {
+		ms, err := strconv.Atoi(v)
+		if err != nil {
+			return nil, err
+		}
+		sc.hangup = time.Duration(ms) * time.Millisecond
+	}
+	if v := kv["chat"]; v != "-" && v != "" {
+		for _, x := range strings.Split(v, "_") {
+			ms, err := strconv.Atoi(x)
+			if err != nil {
+				return nil, err
+			}
+			sc.chat = append(sc.chat, time.Duration(ms)*time.Millisecond)
+		}
+		sort.Slice(sc.chat, func(i, j int) bool { return sc.chat[i] < sc.chat[j] })
+	}
+	if v := kv["p"]; v != "-" && v != "" {
+		ms, err := strconv.Atoi(v)
+		if err != nil {
+			return nil, err
+		}
+		sc.period = time.Duration(ms) * time.Millisecond
+	}
+	if v := kv["ck"]; v != "" {
+		sc.chatKind = v
+	}
+	if v := kv["tr"]; v != "-" {
+		sc.trickle = v
+	}
+	return sc, nil
+}
+
+func (h *c17Host) serveScript(c net.Conn, sc *c17Script, hid c17Identity) {
+	t0 := time.Now()
+	hid.hasIdent = hid.hasIdent && sc.ident
+	var wmu sync.Mutex
+	write := func(b []byte) {
+		wmu.Lock()
+		c.Write(b)
+		wmu.Unlock()
+	}
+	stop := make(chan struct{}) // closed when the read side ends (peer gone, host closed, hung up)
+	defer close(stop)
+	waitUntil := func(d time.Duration) bool {
+		w := time.Until(t0.Add(d))
+		if w <= 0 {
+			select {
+			case <-stop:
+				return false
+			default:
+				return true
+			}
+		}
+		tm := time.NewTimer(w)
+		defer tm.Stop()
+		select {
+		case <-tm.C:
+			return true
+		case <-stop:
+			return false
+		}
+	}
+	if sc.hangup >= 0 {
+		go func() {
+			if waitUntil(sc.hangup) {
+				c.Close()
+			}
+		}()
+	}
+	// an answer that never completes: the header claims 64 KiB more than is sent, then a byte every 100 ms
+	trickle := func(frame []byte) {
+		f := append([]byte{}, frame...)
+		binary.BigEndian.PutUint32(f[2:], uint32(len(f)+65536))
+		go func() {
+			for i := 0; ; i++ {
+				b := byte(0)
+				if i < len(f) {
+					b = f[i]
+				}
+				write([]byte{b})
+				tm := time.NewTimer(100 * time.Millisecond)
+				select {
+				case <-tm.C:
+				case <-stop:
+					tm.Stop()
+					return
+				}
+			}
+		}()
+	}
+	helloFrame := func(st int) []byte {
+		return c17Frame(1, c17MsgReaderEventNotification, 1,
+			c17TLV(c17ParReaderEventNotificationData,
+				c17TLV(c17ParUTCTimestamp, c17U64(1600000000000000)),
+				c17TLV(c17ParConnectionAttemptEvent, c17U16(st))))
+	}
+	helloSent := make(chan struct{})
+	if !sc.hello.has && strings.Contains(sc.trickle, "h") {
+		trickle(helloFrame(0))
+	}
+	if sc.hello.has {
+		go func() {
+			if !waitUntil(sc.hello.delay) {
+				return
+			}
+			st := 0
+			if !sc.hello.ok {
+				st = 1 // failed: a reader-initiated connection already exists
+			}
+			write(helloFrame(st))
+			close(helloSent)
+		}()
+	}
+	// unsolicited traffic
+	var chatMu sync.Mutex
+	chatN := uint32(0)
+	chatMsg := func() {
+		select {
+		case <-helloSent:
+		default:
+			return // nothing may precede the first message
+		}
+		chatMu.Lock()
+		chatN++
+		n := chatN
+		chatMu.Unlock()
+		kind := sc.chatKind
+		if kind == "mix" {
+			kind = []string{"ka", "ev", "ro"}[n%3]
+		}
+		switch kind {
+		case "ev":
+			write(c17Frame(1, c17MsgReaderEventNotification, 70000+n,
+				c17TLV(c17ParReaderEventNotificationData, c17TLV(c17ParUTCTimestamp, c17U64(1600000000000000+uint64(n))))))
+		case "ro":
+			write(c17Frame(1, c17MsgROAccessReport, 70000+n, nil))
+		default:
+			write(c17Frame(1, c17MsgKeepAlive, 70000+n, nil))
+		}
+	}
+	if len(sc.chat) > 0 {
+		go func() {
+			for _, t := range sc.chat {
+				if !waitUntil(t) {
+					return
+				}
+				chatMsg()
+			}
+		}()
+	}
+	if sc.period > 0 {
+		go func() {
+			for k := 1; ; k++ {
+				if !waitUntil(time.Duration(k) * sc.period) {
+					return
+				}
+				chatMsg()
+			}
+		}()
+	}
+	answer := func(stage string, a c17Answer, pos, neg []byte, then func()) {
+		if !a.has {
+			if strings.Contains(sc.trickle, stage) {
+				trickle(pos)
+			}
+			return
+		}
+		f := neg
+		if a.ok {
+			f = pos
+		}
+		send := func() {
+			write(f)
+			if a.ok && then != nil {
+				then()
+			}
+		}
+		if a.delay <= 0 {
+			send()
+			return
+		}
+		go func() {
+			tm := time.NewTimer(a.delay)
+			defer tm.Stop()
+			select {
+			case <-tm.C:
+				send()
+			case <-stop:
+			}
+		}()
+	}
+	for {
+		ver, typ, id, _, err := c17ReadFrame(c)
+		if err != nil {
+			return
+		}
+		h.note(typ)
+		switch typ {
+		case c17MsgGetSupportedVersion:
+			// the client reads the version numbers from the top three bits of each byte
+			maxv := byte(1 << 5)
+			if sc.setver != nil {
+				maxv = 2 << 5
+			}
+			answer("v", sc.version, c17Frame(ver, c17MsgGetSupportedVersionResp, id, append([]byte{1 << 5, maxv}, c17StatusOK()...)),
+				c17Frame(ver, c17MsgErrorMessage, id, c17StatusCode(100)), nil)
+		case c17MsgSetProtocolVersion:
+			if sc.setver != nil {
+				answer("s", *sc.setver, c17Frame(ver, c17MsgSetProtocolVersionResp, id, c17StatusOK()),
+					c17Frame(ver, c17MsgSetProtocolVersionResp, id, c17StatusCode(100)), nil)
+			}
+		case c17MsgGetReaderConfig:
+			answer("c", sc.config, c17Frame(ver, c17MsgGetReaderConfigResp, id, hid.configResp()),
+				c17Frame(ver, c17MsgGetReaderConfigResp, id, c17StatusCode(100)), nil)
+		case c17MsgGetReaderCapabilities:
+			answer("k", sc.caps, c17Frame(ver, c17MsgGetReaderCapabilitiesResp, id, hid.capsResp()),
+				c17Frame(ver, c17MsgGetReaderCapabilitiesResp, id, c17StatusCode(100)), nil)
+		case c17MsgCloseConnection:
+			neg := c17Frame(ver, c17MsgCloseConnectionResponse, id, c17StatusCode(401)) // R_DeviceError: refused
+			if sc.closeOther {
+				neg = c17Frame(ver, c17MsgErrorMessage, id, c17StatusCode(109))
+			}
+			var then func()
+			if sc.fin {
+				then = func() { c.Close() }
+			}
+			answer("x", sc.closeA, c17Frame(ver, c17MsgCloseConnectionResponse, id, c17StatusOK()), neg, then)
+		default:
+			// KEEPALIVE_ACK and anything else: not answered
 		}
 	}
 }
